@@ -305,10 +305,8 @@ def _ctor_instances(tier):
                     out.append(dict(n=n, fix=p2))
             out.append(dict(n=hs - 1, fix=pins))
             if tier == 'thorough':
-                for n in (hs, hs + sh, hs + sh + 12):
+                for n in (hs, hs + sh):
                     out.append(dict(n=n, fix=pins))
-            if tier == 'thorough':
-                out.append(dict(n=hs, fix=fx))
     return out
 
 
@@ -342,8 +340,9 @@ def _battery_instances(tier):
             else:
                 out.append(dict(elfclass=cls, little=little, fields=[list(f)]))
         pairs = [(('EHDR', 0, 'e_shnum'), ('SHDR', 0, 'sh_size')), (('EHDR', 0, 'e_shoff'), ('EHDR', 0, 'e_shentsize')), (('SHDR', 2, 'sh_size'), ('SHDR', 2, 'sh_entsize')),
-                 (('PHDR', 2, 'p_offset'), ('PHDR', 2, 'p_filesz')), (('WORD', 0, 'note'), ('WORD', 1, 'note')), (('EHDR', 0, 'e_phnum'), ('SHDR', 0, 'sh_info')), (('SHDR', 7, 'sh_flags'), ('SHDR', 7, 'sh_offset'))]
-        for a, b in pairs if tier == 'thorough' else [pairs[0], pairs[2]]:
+                 (('PHDR', 2, 'p_offset'), ('PHDR', 2, 'p_filesz')), (('WORD', 0, 'note'), ('WORD', 1, 'note')), (('EHDR', 0, 'e_phnum'), ('SHDR', 0, 'sh_info')), (('SHDR', 7, 'sh_flags'), ('SHDR', 7, 'sh_offset')),
+                 (('EHDR', 0, 'e_phentsize'), ('EHDR', 0, 'e_phnum')), (('EHDR', 0, 'e_shentsize'), ('EHDR', 0, 'e_shnum'))]
+        for a, b in pairs if tier == 'thorough' else [pairs[0], pairs[2], pairs[7], pairs[8]]:      # stride x count of both header tables also in the quick tier
             out.append(dict(elfclass=cls, little=little, fields=[list(a), list(b)]))
         out.append(dict(elfclass=cls, little=little, fields=[list(pairs[6][0]), list(pairs[6][1])], range='beyond'))
         # long tables (a cost that is quadratic in the number of entries only shows with many entries), with and without section headers
@@ -359,18 +358,18 @@ def _battery_instances(tier):
     return out
 
 
-TIER_PARAMS = {'quick': {'conc_cap': 400, 'max_decisions': 20000, 'deadline_s': 900}, 'thorough': {'conc_cap': 800, 'max_decisions': 60000, 'deadline_s': 3000}}
+TIER_PARAMS = {'quick': {'conc_cap': 400, 'max_decisions': 20000, 'deadline_s': 900}, 'thorough': {'conc_cap': 800, 'max_decisions': 60000, 'deadline_s': 5400}}
 
 HARNESSES = [
-    H('h19_1_ctor', h_ctor, _ctor_instances, decoy=-1, expect=('ELFError', 'opened'),
-      desc='ELFFile(stream) on images whose EVERY byte is symbolic (n = 0..6 fully free; n up to header + one table entry with only magic/class/data pinned): every path of the constructor ends by '
-           'returning or by an exception that is an ELFError; the stream model raises ValueError / OverflowError on absurd seeks like io.BytesIO does'),
-    H('h19_3_load_from_path', h_load_from_path,
-      lambda tier: [dict(elfclass=c, little=l, cut=k) for c, l in ((64, True), (32, False)) for k in (0, 1, 3, 4, 5, 6, 15, 16, 17, 23, 24, 51, 52, 53, 63, 64, 65, 120, 500, None)],
-      expect=('ELFError', 'opened'),
-      desc='ELFFile.load_from_path on files holding a prefix of the seed (empty file included): ELFError or an object on which the battery terminates (ground instances)'),
     H('h19_2_battery', h_battery, _battery_instances, decoy=-1, expect=('terminated', 'ctor-ELFError'),
       desc='seed shared objects (sections, segments, symbols, dynamic table, notes, SysV and GNU hash) with one or two fields replaced by UNCONSTRAINED symbolic values (every count, size, offset, '
            'link, entry size, type of the file header, section / program headers, dynamic entries, hash and note words) or truncated at every table boundary: the enumeration battery of the '
            'statement terminates on every path within 16 x file size + 2048 stream reads (paths longer than the decision budget are reported inconclusive, never as success)'),
+    H('h19_3_load_from_path', h_load_from_path,
+      lambda tier: [dict(elfclass=c, little=l, cut=k) for c, l in ((64, True), (32, False)) for k in (0, 1, 3, 4, 5, 6, 15, 16, 17, 23, 24, 51, 52, 53, 63, 64, 65, 120, 500, None)],
+      expect=('ELFError', 'opened'),
+      desc='ELFFile.load_from_path on files holding a prefix of the seed (empty file included): ELFError or an object on which the battery terminates (ground instances)'),
+    H('h19_1_ctor', h_ctor, _ctor_instances, decoy=-1, expect=('ELFError', 'opened'),
+      desc='ELFFile(stream) on images whose EVERY byte is symbolic (n = 0..6 fully free; n up to header + one table entry with only magic/class/data pinned): every path of the constructor ends by '
+           'returning or by an exception that is an ELFError; the stream model raises ValueError / OverflowError on absurd seeks like io.BytesIO does'),
 ]
